@@ -78,6 +78,11 @@ pub fn check_case(ctx: &Ctx, tape: &[u8], cfg: &Cfg, mutants: usize, stats: &mut
             stats.count("mutant:site-not-reached");
             continue;
         };
+        if applied.free {
+            // free-form edits carry no classification: they are C10's inputs
+            stats.count("mutant:free-form(skipped here)");
+            continue;
+        }
         let text = format!("{}{}", print::prelude(&ctx.repo_root), print::join(&pr.out));
         stats.eval();
         let label = format!("{} @ {} / {}", applied.op, applied.ctx, applied.former);
@@ -138,6 +143,52 @@ pub fn check_case(ctx: &Ctx, tape: &[u8], cfg: &Cfg, mutants: usize, stats: &mut
         }
     }
     Ok(())
+}
+
+/// The mutants of one generated program as plain texts (every operator, free-form ones included) with their
+/// labels: inputs for C10 (totality) and C01 (accepted ⇒ does not go wrong).
+pub fn mutant_texts(ctx: &Ctx, tape: &[u8], cfg: &Cfg, mutants: usize) -> (Vec<(String, String)>, Vec<u8>) {
+    let g = h::generate(tape, cfg);
+    let names = Names::unique(&g.prog);
+    let style = Style::default();
+    let mut pr = print::Printer::new(&g.prog, &names, &style);
+    pr.mutator = Some(Mutator::default());
+    pr.program();
+    let n_sites = pr.mutator.as_ref().unwrap().sites;
+    let total_weight: u64 = (0..N_KINDS).filter(|k| n_sites[*k] > 0).map(|k| KIND_WEIGHTS[k] as u64).sum();
+    let mut out = vec![];
+    if total_weight == 0 {
+        return (out, g.stdin);
+    }
+    let seed = hash_of(tape) ^ 0x5bd1e995;
+    for k in 0..mutants {
+        let r = mix(seed, k as u64);
+        let mut w = (mix(r, 1) % total_weight) as i64;
+        let mut kind = 0;
+        for k2 in 0..N_KINDS {
+            if n_sites[k2] == 0 {
+                continue;
+            }
+            w -= KIND_WEIGHTS[k2] as i64;
+            if w < 0 {
+                kind = k2;
+                break;
+            }
+        }
+        // clause sites are where the free-form edits live: give them a fair share
+        if n_sites[8] > 0 && k % 3 == 0 {
+            kind = 8;
+        }
+        let target = (kind, (mix(r, 2) % n_sites[kind] as u64) as usize);
+        let mut pr = print::Printer::new(&g.prog, &names, &style);
+        pr.mutator = Some(Mutator { target: Some(target), choice: (r & 0xffff_ffff) as u32, ..Default::default() });
+        pr.program();
+        let m = pr.mutator.take().unwrap();
+        if let Some(applied) = m.applied {
+            out.push((format!("{}{}", print::prelude(&ctx.repo_root), print::join(&pr.out)), format!("{} @ {}", applied.op, applied.ctx)));
+        }
+    }
+    (out, g.stdin)
 }
 
 pub fn run(ctx: &Ctx) -> Report {
